@@ -21,6 +21,8 @@
 //!  * the writer as a dimension: `to_writer` / `to_writer_pretty` into sinks that
 //!    take only part of a buffer per call, fixed slices, interrupted, buffered and
 //!    failing sinks, read back through slow readers;
+//!  * the total size of the document (64 KiB .. 32 MiB, thorough 128 / 256 MiB),
+//!    reached in ten ways, through every serialise route x every parse route;
 //!  * object-level history: all short operation sequences (queries, edits of
 //!    every public field, clones, JSON round trips, parts swapped between two
 //!    files, version changes) on one file, every observer afterwards compared
@@ -1234,8 +1236,8 @@ impl Write for CmpSink<'_> {
 struct VarChunkReader<'a> { data: &'a [u8], sizes: &'static [usize], i: usize }
 impl Read for VarChunkReader<'_> {
     fn read(&mut self, b: &mut [u8]) -> io::Result<usize> {
-        let n = b.len().min(self.sizes[self.i % self.sizes.len()]).min(self.data.len());
-        self.i += 1;
+        let n = b.len().min(self.sizes[self.i]).min(self.data.len());
+        self.i += 1; if self.i == self.sizes.len() { self.i = 0 }
         b[..n].copy_from_slice(&self.data[..n]); self.data = &self.data[n..]; Ok(n)
     }
 }
@@ -1396,13 +1398,7 @@ impl TsCase {
 struct TsTally { bad: Vec<(String, String)>, good: Vec<String>, ev: u64 }
 
 /// One parse of one document: equal to the file written, same number of payload items.
-static PROF: Mutex<BTreeMap<String, f64>> = Mutex::new(BTreeMap::new());
-fn cpu_now() -> f64 { let mut ts = libc::timespec { tv_sec: 0, tv_nsec: 0 }; unsafe { libc::clock_gettime(libc::CLOCK_THREAD_CPUTIME_ID, &mut ts) }; ts.tv_sec as f64 + ts.tv_nsec as f64 / 1e9 }
-struct Prof(String, f64);
-impl Prof { fn new(l: &str) -> Prof { Prof(l.to_string(), cpu_now()) } }
-impl Drop for Prof { fn drop(&mut self) { *PROF.lock().unwrap().entry(self.0.clone()).or_insert(0.0) += cpu_now() - self.1 } }
 fn ts_parse_and_judge(t: &mut TsTally, oc: &mut Oc, ser: &str, pr: ParseRoute, d: &[u8], f: &SlurmFile, want_payloads: usize) {
-    let _p = Prof::new(&format!("parse {:?}{}", pr, if ser.contains("pretty") { " pretty" } else { "" }));
     t.ev += 1;
     let pair = format!("{ser} -> {}", pr.text());
     match guard(|| pr.run(d).map(|g| (g == *f, g.assertions.iter_payload().count()))) {
@@ -1417,7 +1413,6 @@ fn ts_parse_and_judge(t: &mut TsTally, oc: &mut Oc, ser: &str, pr: ParseRoute, d
 /// One document size reached in one way, through every route. Returns (executions, size hit exactly).
 fn ts_case(lf: &mut Lf, oc: &mut Oc, case: &TsCase, thorough: bool, value_limit: usize) -> (u64, bool) {
     let head = case.text();
-    let _pb = Prof::new("build");
     let (f, n, pad) = match guard(|| ts_build(case.way, case.target())) {
         Ok(x) => x,
         Err(p) => { lf.fail("C15.json.total_size.no_panic", || format!("{head}: while building the file"), || p.clone()); return (1, false) }
@@ -1429,7 +1424,6 @@ fn ts_case(lf: &mut Lf, oc: &mut Oc, case: &TsCase, thorough: bool, value_limit:
     let parse_routes: &[ParseRoute] = if thorough { &[ParseRoute::FromStr, ParseRoute::FromSlice, ParseRoute::ReaderSlice, ParseRoute::ReaderBuf, ParseRoute::ReaderVar, ParseRoute::ReaderOne, ParseRoute::ReaderBufOdd] }
         else { &[ParseRoute::FromStr, ParseRoute::FromSlice, ParseRoute::ReaderSlice, ParseRoute::ReaderBuf, ParseRoute::ReaderVar, ParseRoute::ReaderOne] };
 
-    drop(_pb); let _ps = Prof::new("serialise");
     // serialise route 1: to_string
     t.ev += 1;
     let s = match guard(|| f.to_string()) { Ok(s) => s, Err(p) => { lf.fail("C15.json.total_size.no_panic", || format!("{desc}: to_string"), || p.clone()); return (t.ev, false) } };
@@ -1461,14 +1455,12 @@ fn ts_case(lf: &mut Lf, oc: &mut Oc, case: &TsCase, thorough: bool, value_limit:
             }
         }
     }
-    drop(_ps);
     // every parse route over the document (identical octets from all serialise routes are parsed once per parse route)
     let shared = if others.is_empty() { "to_string = to_writer into every sink (same octets)" } else { "to_string" };
     for &pr in parse_routes { ts_parse_and_judge(&mut t, oc, shared, pr, s.as_bytes(), &f, want_payloads) }
     for (label, d) in &others { for &pr in parse_routes { ts_parse_and_judge(&mut t, oc, label, pr, d, &f, want_payloads) } }
     drop(others); drop(s);
     // the pretty forms
-    let _pp = Prof::new("pretty total");
     t.ev += 2;
     match guard(|| { let p = f.to_string_pretty(); let mut c = CmpSink::new(p.as_bytes(), 4093); let r = f.to_writer_pretty(&mut c).map_err(|e| format!("{:?}: {e}", e.kind())); let same = c.same(); let pos = c.pos; (p, r, same, pos) }) {
         Err(p) => writer_bad.push(("to_string_pretty / to_writer_pretty".into(), format!("PANIC {p}"))),
@@ -1484,11 +1476,10 @@ fn ts_case(lf: &mut Lf, oc: &mut Oc, case: &TsCase, thorough: bool, value_limit:
                     }
                 }
             }
-            let pretty_routes: &[ParseRoute] = if thorough { &[ParseRoute::FromStr, ParseRoute::ReaderBuf, ParseRoute::ReaderVar] } else { &[ParseRoute::FromStr] };
+            let pretty_routes: &[ParseRoute] = if thorough { &[ParseRoute::FromStr, ParseRoute::ReaderBuf] } else { &[ParseRoute::FromStr] };
             for &pr in pretty_routes { ts_parse_and_judge(&mut t, oc, "to_string_pretty", pr, p.as_bytes(), &f, want_payloads) }
         }
     }
-    drop(_pp); let _pv = Prof::new("value + drop");
     // the serde_json::Value route (a tree of maps: many times the size of the document, hence bounded)
     if case.target() <= value_limit {
         t.ev += 2;
@@ -1513,12 +1504,10 @@ fn ts_case(lf: &mut Lf, oc: &mut Oc, case: &TsCase, thorough: bool, value_limit:
 }
 
 fn total_size(ctx: &Ctx, thorough: bool) {
-    let (lo, hi): (u32, u32) = (16, if thorough { 28 } else { 25 });
-    let hi = std::env::var("VERIF_C15_TOP_EXP").ok().and_then(|v| v.parse().ok()).unwrap_or(hi);
-    let lo = std::env::var("VERIF_C15_LO_EXP").ok().and_then(|v| v.parse().ok()).unwrap_or(lo);
+    let (lo, hi): (u32, u32) = (16, if thorough { 27 } else { 25 });
     let value_limit: usize = (if thorough { 16usize << 20 } else { 4 << 20 }) + 1;
     let sp = ctx.space("json.total_size",
-        "the TOTAL SIZE of the document as a quantity, crossed with every route: files whose compact JSON has exactly 2^e - 1, 2^e and 2^e + 1 octets for every e from 16 (64 KiB) to 25 (32 MiB; thorough: to 28 = 256 MiB), the size reached in ten WAYS: many small entries in each of the six sections in turn (entries of fixed width: ten-digit AS numbers, /24 and /64 prefixes, key identifiers, 91-octet keys, 0..3 providers, some with comments), ASPA assertions with ProviderAsns::MAX_COUNT = 16380 providers each (the last one with the remainder), one BGPsec assertion whose key is the document, one long ASCII comment and one long comment of quotes, backslashes, control and non-ASCII characters (held by an entry of each of the six sections in turn over the sizes); every file has an entry in every section, and the ASCII comment of its last entry pads it to the exact size. Every file goes through EVERY serialise route (to_string, to_writer into a Vec, into a sink taking <= 4093 octets per call, into a BufWriter around a sink taking <= 7 octets per call, serde_json::to_writer of the file into a sink taking <= 65521 per call; to_string_pretty and to_writer_pretty) x EVERY parse route (SlurmFile::from_str, serde_json::from_slice, SlurmFile::from_reader over a slice, over a BufReader, over a reader returning 1 / 7 / 4093 / 65521 / 3 / 8192 / 2 / 100003 ... octets per call, over a reader returning 1 octet per call; thorough: also over a BufReader of capacity 4099 around a reader returning 4093 per call); serialise routes whose octets are identical (compared as they arrive) share one parse per parse route, routes with other octets are parsed on their own; the pretty forms are parsed by from_str and from_reader over a BufReader (thorough: also over a slice); up to 4 MiB + 1 (thorough 16 MiB + 1) also to_value -> from_value and Value::to_string -> from_str. Oracle: every pairing gives back a file equal to the one written whose iter_payload yields as many items as the file has assertions (so all routes agree); a serialise route may fail only if its sink refuses. non-trivial = files whose compact JSON has exactly the target size");
+        "the TOTAL SIZE of the document as a quantity, crossed with every route: files whose compact JSON has exactly 2^e - 1, 2^e and 2^e + 1 octets for every e from 16 (64 KiB) to 25 (32 MiB) (thorough: to 27 = 128 MiB, and 2^28 + 1 octets in four of the ways), the size reached in ten WAYS: many small entries in each of the six sections in turn (entries of fixed width: ten-digit AS numbers, /24 and /64 prefixes, key identifiers, 91-octet keys, 0..3 providers, some with comments), ASPA assertions with ProviderAsns::MAX_COUNT = 16380 providers each (the last one with the remainder), one BGPsec assertion whose key is the document, one long ASCII comment and one long comment of quotes, backslashes, control and non-ASCII characters (each held by an entry of each of the six sections in turn over the sizes); every file has an entry in every section, and the ASCII comment of the last entry of the way's section pads it to the exact size. Every file goes through EVERY serialise route (to_string, to_writer into a Vec, into a sink taking <= 4093 octets per call, into a BufWriter around a sink taking <= 7 octets per call, serde_json::to_writer of the file into a sink taking <= 65521 per call; to_string_pretty and to_writer_pretty into a sink taking <= 4093 per call) x EVERY parse route (SlurmFile::from_str, serde_json::from_slice, SlurmFile::from_reader over a slice, over a BufReader, over a reader returning 1 / 7 / 4093 / 65521 / 3 / 8192 / 2 / 100003 / ... octets per call, over a reader returning 1 octet per call; thorough: also over a BufReader of capacity 4099 around a reader returning 4093 per call). The parse routes see nothing but the octets, so serialise routes whose octets are identical (compared as they arrive at the sink) share one parse per parse route; a route with other octets is parsed on its own by every parse route. The pretty form is parsed by from_str (thorough: also by from_reader over a BufReader); up to 4 MiB + 1 (thorough 16 MiB + 1; the tree of maps takes some 30 times the size of the document) also to_value -> from_value and Value::to_string -> from_str. Oracle: every pairing gives back a file equal to the one written whose iter_payload yields as many items as the file has assertions (hence all routes agree); a serialise route may fail only if its sink refuses, and these sinks never do. Large cases run a few at a time (memory), largest first. non-trivial = files whose compact JSON has exactly the target size");
     space_body(ctx, &sp.clone(), || {
         let mut cases: Vec<TsCase> = Vec::new();
         for e in lo..=hi { for (ni, delta) in [-1i64, 0, 1].into_iter().enumerate() {
@@ -1529,9 +1518,11 @@ fn total_size(ctx: &Ctx, thorough: bool) {
             cases.push(TsCase { way: Way::Comment { escapes: false, holder: rot % 6 }, exp: e, delta });
             cases.push(TsCase { way: Way::Comment { escapes: true, holder: (rot + 3) % 6 }, exp: e, delta });
         }}
+        if thorough { for way in [Way::Section(0), Way::AspaMax, Way::LongKey, Way::Comment { escapes: false, holder: 3 }] { cases.push(TsCase { way, exp: hi + 1, delta: 1 }) } }
         // largest first; a case is started only while the documents in flight fit the memory budget
-        // (weight: octets of the document x the copies alive at once), smaller cases fill the other threads
-        let weight = |c: &TsCase| -> u64 { c.target() as u64 * if c.target() <= value_limit { 30 } else { 5 } };
+        // (weight: octets of the document x 6 for the file, the document, the parsed file and the growth of
+        // their vectors, measured; x 30 with the Value tree), smaller cases fill the other threads
+        let weight = |c: &TsCase| -> u64 { c.target() as u64 * if c.target() <= value_limit { 30 } else { 6 } };
         let budget: u64 = cases.iter().map(weight).max().unwrap_or(0).max(if thorough { 3u64 << 30 } else { 3u64 << 29 });
         cases.sort_by(|a, b| b.target().cmp(&a.target()));
         let n_cases = cases.len();
@@ -1559,21 +1550,23 @@ fn total_size(ctx: &Ctx, thorough: bool) {
                         if let Some((ev, exact)) = unit(|| case.text(), || ts_case(&mut lf, &mut oc, &case, thorough, value_limit)) { sp.evals(ev); if exact { sp.nontrivial(1) } }
                         sp.merge_outcomes(&oc);
                         drop(lf);
+                        // hand the freed small allocations of a large case back to the system before the next one starts
+                        // SAFETY: malloc_trim has no preconditions.
+                        if case.target() >= 1 << 22 { unsafe { libc::malloc_trim(0); } }
                         state.lock().unwrap().1 += weight(&case);
                         cv.notify_all();
                     }
                 });
             }
         });
-        if std::env::var("VERIF_C15_PROFILE").is_ok() { for (k, v) in PROF.lock().unwrap().iter() { eprintln!("PROF {k}: {v:.1}") } }
-        sp.set("sizes", serde_json::json!(format!("2^e - 1, 2^e, 2^e + 1 for e = {lo}..={hi}")));
+        sp.set("sizes", serde_json::json!(format!("2^e - 1, 2^e, 2^e + 1 for e = {lo}..={hi}{}", if thorough { format!("; 2^{} + 1 for prefixFilters, ASPA assertions with 16380 providers, the long key and the long ASCII comment", hi + 1) } else { String::new() })));
         sp.set("ways", serde_json::json!((0..6).map(|s| Way::Section(s).text()).chain([Way::AspaMax.text(), Way::LongKey.text(), "one long ASCII comment, on an entry of each section in turn".to_string(), "one long comment of characters that need escapes or several octets, on an entry of each section in turn".to_string()]).collect::<Vec<_>>()));
         sp.set("cases", serde_json::json!(n_cases));
         sp.set("value_route_up_to_octets", serde_json::json!(value_limit));
         sp.sample_str(|| TsCase { way: Way::AspaMax, exp: 24, delta: 1 }.text());
         sp.sample_str(|| TsCase { way: Way::Section(0), exp: hi, delta: 1 }.text());
     });
-    sp.done(true, &format!("10 ways x 3 sizes around every power of two from 2^{lo} to 2^{hi} octets x all serialise routes x all parse routes"));
+    sp.done(true, &format!("10 ways x 3 sizes around every power of two from 2^{lo} to 2^{hi} octets{} x all serialise routes x all parse routes", if thorough { format!(" + 4 ways at 2^{} + 1", hi + 1) } else { String::new() }));
 }
 
 fn main() {
@@ -1581,7 +1574,6 @@ fn main() {
     ctx.assume("RFC 8416 section 3.3 (as restated in the property) is the specification of the drop decision; serde_json is trusted as a JSON reader/writer of primitive values");
     ctx.assume("Prefix::new / MaxLenPrefix::new / KeyIdentifier::from build the values the model names (C13 checks them); covering is re-decided on integers here");
     let thorough = ctx.tier.is_thorough();
-    if std::env::var("VERIF_C15_ONLY_TS").is_ok() { total_size(&ctx, thorough); emit_failures(&ctx); ctx.finish(); }
 
     // model self-check
     {
